@@ -85,10 +85,72 @@ def check(run, prog, tier):
     run.rule("C01-J", "the non-secular non-equilibrium Foerster tensor preserves trace and Hermiticity (index algebra on the reference "
                       "routine with opaque integrals)", minimum=2)
     rule_J(run, prog)
+    run.rule("C01-K", "RelaxationTensor.updateStructure() leaves every population column with zero sum whatever stood on the diagonal "
+                      "before (it 'recalculates' the depopulation rates: calling it twice is calling it once)", minimum=2)
+    rule_K(run, prog)
     rule_A(run, prog)
     rule_B(run, prog)
     rule_C(run, prog)
     rule_D(run, prog)
+
+
+def rule_K(run, prog):
+    """'sum_a R[a,a,c,d] = 0': for the population columns the Foerster-type tensors get it from updateStructure(), a public
+    method.  With T = sum_i R[i,i,n,n] (the trace, diagonal element d included) and d = R[n,n,n,n] on entry, the statement
+    that writes the diagonal gives d' (linear in T and d), and the column sum afterwards is T - d + d'.  It vanishes for
+    every incoming tensor iff d' = d - T.  (`d -= T - d` gives the sum d: zero only on a fresh tensor, doubled rates on a
+    second call.)"""
+    rid = "C01-K"
+    f = prog.func("quantarhei.qm.liouvillespace.relaxationtensor.RelaxationTensor.updateStructure")
+    prog.consulted.add(f.relpath)
+
+    def lin(e):
+        """(coefficient of T, coefficient of d, known?)"""
+        if isinstance(e, ast.Call) and (call_name(e) or "").split(".")[-1] == "trace":
+            return (1.0, 0.0)
+        if isinstance(e, ast.Subscript) and norm(e.value) in ("self._data", "self.data"):
+            sl = e.slice.elts if isinstance(e.slice, ast.Tuple) else [e.slice]
+            names = [norm(x) for x in sl if not isinstance(x, ast.Slice)]
+            if len(names) == 4 and len(set(names)) == 1:
+                return (0.0, 1.0)
+            return None
+        if isinstance(e, ast.UnaryOp) and isinstance(e.op, ast.USub):
+            a = lin(e.operand)
+            return None if a is None else (-a[0], -a[1])
+        if isinstance(e, ast.BinOp) and isinstance(e.op, (ast.Add, ast.Sub)):
+            a, b = lin(e.left), lin(e.right)
+            if a is None or b is None:
+                return None
+            sg = 1.0 if isinstance(e.op, ast.Add) else -1.0
+            return (a[0] + sg * b[0], a[1] + sg * b[1])
+        return None
+
+    n = 0
+    for st in walk_no_nested(f.node):
+        if not isinstance(st, (ast.Assign, ast.AugAssign)):
+            continue
+        t_ = st.targets[0] if isinstance(st, ast.Assign) else st.target
+        if lin(t_) != (0.0, 1.0):
+            continue
+        v = lin(st.value)
+        if v is None or v[0] == 0.0:
+            continue            # not the depopulation statement (no trace in it)
+        n += 1
+        if isinstance(st, ast.AugAssign):
+            sg = 1.0 if isinstance(st.op, ast.Add) else (-1.0 if isinstance(st.op, ast.Sub) else None)
+            new = None if sg is None else (sg * v[0], 1.0 + sg * v[1])
+        else:
+            new = v
+        ok = new is not None and abs(new[0] + 1.0) < 1e-12 and abs(new[1] - 1.0) < 1e-12
+        run.obligation(rid, f.short, ok, key="column-sum:%d" % n,
+                       message="updateStructure writes the diagonal as %s*T + %s*d (T the trace of the column block on entry, d its "
+                               "diagonal element): the column sums to zero afterwards only for d' = d - T; as written the sum is "
+                               "left at %s*T + %s*d - zero on a freshly filled tensor only, and a second call doubles the "
+                               "depopulation rates" % ((new or ("?", "?"))[0], (new or ("?", "?"))[1],
+                                                        (1.0 + new[0]) if new else "?", (new[1] - 1.0) if new else "?"),
+                       loc=f.loc(st))
+    if n < 2:
+        raise AnalysisError("C01-K: only %d depopulation statements found in updateStructure (rank 4 and rank 5 confirmed)" % n)
 
 
 def rule_J(run, prog):
